@@ -273,8 +273,18 @@ def repo_test_inputs():
     return sorted(set(out))
 
 
+def boundary_inputs():
+    """string lengths at and beyond the machine word: the body can never be complete, so the input is rejected - and nothing panics"""
+    lens = ['4294967295', '4294967296', '4294967299', '9223372036854775807', '9223372036854775808', '18446744073709551615',
+            '18446744073709551616', '18446744073709551619', '99999999999999999999', '340282366920938463463374607431768211459']
+    out = []
+    for ln in lens:
+        out += [('%s:abc' % ln).encode(), ('l%s:abce' % ln).encode(), ('d%s:abci1ee' % ln).encode(), ('d1:a%s:abce' % ln).encode()]
+    return out
+
+
 def trace_validate(pid, V, rng, n):
-    docs = sample_docs(rng, n) + repo_test_inputs()
+    docs = sample_docs(rng, n) + repo_test_inputs() + boundary_inputs()
     obs = run_mbt([{'op': 'bdecode', 'input': d.hex()} for d in docs])
     d = outdir(pid)
     tpath = os.path.join(d, 'bencode_trace.ndjson')
